@@ -371,6 +371,18 @@ def run(chk):
         chk.violation("C20.T" if v["rule"].startswith("C09") else v["rule"], "terminal:" + v["key"], "the data the wrappers relay is read through the terminal: " + v["what"], **v["detail"])
     if not subr.violations:
         chk.discharge(keyr)
+    # PIDWrapper::new wires the motor to the controller with inner.follow(pid): what follow / update_following_data do is C15's
+    # table of Settable's provided methods (shared)
+    import rules.C15 as C15
+    subf = _r.Check("C20", chk.tier)
+    C15.check_following(subf, prog, sim)
+    chk.evaluations += subf.evaluations
+    keyf = "F:follow-wiring"
+    chk.obligation(keyf, "Settable::follow / update_following_data table (the PID wrapper drives its motor through it) - shared with C15")
+    for v in subf.violations:
+        chk.violation("C20.P" if v["rule"].startswith("C15") else v["rule"], "follow:" + v["key"], "the PID wrapper drives its motor by inner.follow(controller): " + v["what"], **v["detail"])
+    if not subf.violations:
+        chk.discharge(keyf)
     # release profile (K6 = default features, --release): debug_assert!(..) and its argument are compiled out, so a write or a
     # call moved inside one silently disappears; the same tables must hold there
     import report as _report
